@@ -15,8 +15,8 @@ use nom::{
 use super::{
     asn1_type, asn1_value,
     common::{
-        extension_marker, identifier, in_braces, in_parentheses, range_seperator, reserved_words,
-        skip_ws_and_comments,
+        block_comment, extension_marker, identifier, in_braces, in_parentheses, line_comment,
+        range_seperator, reserved_words, skip_ws_and_comments,
     },
     error::{MiscError, ParserResult},
     information_object_class::object_set,
@@ -410,11 +410,35 @@ fn user_defined_constraint_real(input: Input<'_>) -> ParserResult<'_, UserDefine
         reserved_words(CONSTRAINED_BY),
         skip_ws_and_comments(delimited(
             char(LEFT_BRACE),
-            take_until_unbalanced("{", "}"),
+            user_defined_constraint_text,
             char(RIGHT_BRACE),
         )),
     )))
     .parse(input)
+}
+
+/// Takes the text up to the closing brace of a user-defined constraint. Braces within the
+/// text are balanced, unless they are part of a comment.
+fn user_defined_constraint_text(input: Input<'_>) -> ParserResult<'_, &str> {
+    let mut rest = input.clone();
+    let mut depth = 0_usize;
+    loop {
+        if let Ok((after_comment, _)) = alt((block_comment, line_comment)).parse(rest.clone()) {
+            rest = after_comment;
+            continue;
+        }
+        match rest.inner().chars().next() {
+            Some('{') => depth += 1,
+            Some('}') if depth == 0 => break,
+            Some('}') => depth -= 1,
+            Some(_) => (),
+            None => return take_until_unbalanced("{", "}").parse(input),
+        }
+        let char_len = rest.inner().chars().next().map_or(1, char::len_utf8);
+        rest = rest.slice(char_len..);
+    }
+    let consumed = input.len() - rest.len();
+    Ok((rest, input.slice(..consumed).into_inner()))
 }
 
 /// Parses a PermittedAlphabet constraint.
